@@ -296,8 +296,10 @@ static void io_write_next_mono(struct snapraid_io* io, block_off_t blockcur, int
 	(void)skip;
 
 	/* report errors */
-	for (i = 0; i < IO_WRITER_ERROR_MAX; ++i)
+	for (i = 0; i < IO_WRITER_ERROR_MAX; ++i) {
 		writer_error[i] = io->writer_error[i];
+		io->writer_error[i] = 0;
+	}
 }
 
 static void io_refresh_mono(struct snapraid_io* io)
@@ -1053,6 +1055,18 @@ static void io_stop_thread(struct snapraid_io* io)
 
 /*****************************************************************************/
 /* global */
+
+void io_write_flush_errors(struct snapraid_io* io, int* writer_error)
+{
+	unsigned i;
+
+	/* this must be called after io_stop(), when all the writers have terminated */
+	/* and then no synchronization is required */
+	for (i = 0; i < IO_WRITER_ERROR_MAX; ++i) {
+		writer_error[i] = io->writer_error[i];
+		io->writer_error[i] = 0;
+	}
+}
 
 void io_init(struct snapraid_io* io, struct snapraid_state* state,
 	unsigned io_cache, unsigned buffer_max,
